@@ -22,13 +22,13 @@ from .utils import (
 from .version import DEFAULT_VERSION
 
 ID_REGEX_interoperability = re.compile(
-    r"[0-9a-fA-F]{8}-[0-9a-fA-F]{4}-[0-9a-fA-F]{4}-[0-9a-fA-F]{4}-[0-9a-fA-F]{12}$",
+    r"[0-9a-fA-F]{8}-[0-9a-fA-F]{4}-[0-9a-fA-F]{4}-[0-9a-fA-F]{4}-[0-9a-fA-F]{12}\Z",
 )
 UUID_CANONICAL_REGEX = re.compile(
     r"[0-9a-fA-F]{8}-[0-9a-fA-F]{4}-[0-9a-fA-F]{4}-[0-9a-fA-F]{4}-[0-9a-fA-F]{12}",
 )
-TYPE_REGEX = re.compile(r'^-?[a-z0-9]+(-[a-z0-9]+)*-?$')
-TYPE_21_REGEX = re.compile(r'^[a-z][a-z0-9]*(-[a-z0-9]+)*-?$')
+TYPE_REGEX = re.compile(r'^-?[a-z0-9]+(-[a-z0-9]+)*-?\Z')
+TYPE_21_REGEX = re.compile(r'^[a-z][a-z0-9]*(-[a-z0-9]+)*-?\Z')
 ERROR_INVALID_ID = (
     "not a valid STIX identifier, must match <object-type>--<UUID>: {}"
 )
@@ -436,7 +436,7 @@ class DictionaryProperty(Property):
             elif self.spec_version == '2.1':
                 if len(k) > 250:
                     raise DictionaryKeyError(k, "longer than 250 characters")
-            if not re.match(r"^[a-zA-Z0-9_-]+$", k):
+            if not re.match(r"^[a-zA-Z0-9_-]+\Z", k):
                 msg = (
                     "contains characters other than lowercase a-z, "
                     "uppercase A-Z, numerals 0-9, hyphen (-), or "
@@ -526,7 +526,7 @@ class BinaryProperty(Property):
 class HexProperty(Property):
 
     def clean(self, value, allow_custom=False):
-        if not re.match(r"^([a-fA-F0-9]{2})+$", value):
+        if not re.match(r"^([a-fA-F0-9]{2})+\Z", value):
             raise ValueError("must contain an even number of hexadecimal characters")
         return value, False
 
@@ -647,7 +647,7 @@ class ReferenceProperty(Property):
         return value, has_custom
 
 
-SELECTOR_REGEX = re.compile(r"^([a-z0-9_-]{3,250}(\.(\[\d+\]|[a-zA-Z0-9_-]{1,250}))*|id)$")
+SELECTOR_REGEX = re.compile(r"^([a-z0-9_-]{3,250}(\.(\[\d+\]|[a-zA-Z0-9_-]{1,250}))*|id)\Z")
 
 
 class SelectorProperty(Property):
